@@ -2,7 +2,7 @@
 """Regenerates MANIFEST.json from the table below (kept in one place so that the
 manifest is always valid and in step with the harness modules)."""
 import json, os
-HERE = os.path.dirname(os.path.abspath(__file__))
+HERE = os.path.dirname(os.path.dirname(os.path.abspath(__file__)))
 CLAIMED = {
     "C01": ("value==definition, shape, error path and batch independence of the three built-in costs, "
             "decided per admissible interval by z3 (NRA, Ackermannised log) on the terms produced by "
@@ -53,6 +53,12 @@ CLAIMED = {
             "exception is ValueError and the cut invalid, and (L2 family) that the value is the definition; plus "
             "concrete malformed arrays",
             "4.C13"),
+    "C15": ("fit with a symbolic scale on dummy frames: penalty_/threshold_ equal scale x the documented default (z3, "
+            "linear in the scale); the four MVCAPA penalty families with symbolic scale: non-negative, cumulative "
+            "non-decreasing, proportional, dense/sparse formulas, combined == pointwise minimum; tuned thresholds are the "
+            "quantile stub's value on exactly the training scores and 1-level; PELT changepoint count is monotone in the "
+            "penalty (product run on one symbolic cost table)",
+            "4.C15"),
 }
 PENDING = {}
 TITLES = {}
